@@ -169,13 +169,22 @@ def execute(case):
     scn, p0 = case["scn"], case["pool"]
     pool = RecPool(supply=p0["supply"] / 16, demand=p0["demand"] / 16, utilisation=p0["util"] / 4, allocation=p0["alloc"] / 4)
     log = CallLog()
-    ctrl = build(scn, pool, log)
     events = []
+    raised = []
 
     def step_event(iv):
         calls = list(log)
         del log[:]
-        events.append({"e": "Step", "iv": iv, "p": observe(pool), "called": [c[0] for c in calls], "argsok": all(c[1] for c in calls)})
+        # (a step that raised is a step in which nothing was called the way it should have been)
+        events.append({"e": "Step", "iv": iv, "p": observe(pool), "called": [c[0] for c in calls], "argsok": all(c[1] for c in calls) and not raised, "raised": ",".join(raised)})
+        del raised[:]
+
+    try:
+        ctrl = build(scn, pool, log)
+    except Exception as ex:  # noqa: a controller that cannot even be built with legal parameters
+        raised.append("build:" + type(ex).__name__)
+        step_event(next((op["iv"] for op in case["ops"] if op["e"] == "Step"), 4))
+        return {"scn": scn, "pool": p0, "events": events}
 
     if scn["kind"] != "stepwise":
         for op in case["ops"]:
@@ -184,7 +193,10 @@ def execute(case):
                 events.append(dict(op))
             else:
                 log.expected_interval = op["iv"] / 4
-                ctrl.regulate(op["iv"] / 4)
+                try:
+                    ctrl.regulate(op["iv"] / 4)
+                except Exception as ex:  # noqa: regulate() has no documented way to fail
+                    raised.append(type(ex).__name__)
                 step_event(op["iv"])
     else:
         # Stepwise has no regulate(): run() is driven under a virtual clock, exactly one
@@ -212,7 +224,11 @@ def execute(case):
                         step_event(op["iv"])
                 nursery.cancel_scope.cancel()
 
-        trio.run(main, clock=trio.testing.MockClock(autojump_threshold=0))
+        try:
+            trio.run(main, clock=trio.testing.MockClock(autojump_threshold=0))
+        except Exception as ex:  # noqa: run() ended by an exception of the service
+            raised.append(type(ex).__name__)
+            step_event(scn["iv"])
     return {"scn": scn, "pool": p0, "events": events}
 
 
